@@ -6,7 +6,7 @@ import random
 
 KS = [1, 2, 3, 4, 7, 8, 16, 1000]
 HUGE_IDX = [2 ** 31 - 1, 2 ** 31, 2 ** 32, 2 ** 63 - 1, 2 ** 63, 2 ** 64 - 1]
-RELOADS = ["full", "eps", "mmap", "load_full", "load_mem", "load_mmap"]
+RELOADS = ["full", "eps", "mmap", "load_full", "load_mem", "load_mmap", "eps8"]
 
 # characters whose UTF-8 encodings sit at the edges of the 1/2/3/4-byte forms
 # (bytes 0x7F / 0xC2 0x80 / 0xDF 0xBF / 0xE0 0xA0 0x80 / 0xEF 0xBF 0xBF /
@@ -406,7 +406,7 @@ def reload_episodes(seed, count):
     for t in range(count):
         if t < len(fixed) * 3:
             k, strs = fixed[t // 3]
-            modes = [["full", "eps", "mmap"][t % 3]]
+            modes = [["full", "eps", "mmap", "eps8"][t % 4]]
         else:
             k = r.choice(KS)
             strs = arrange(r, rlist(r, rn(r, min(k, 20))))
